@@ -120,9 +120,42 @@ F9_XML = ('<mujoco><option timestep="0.01" integrator="implicit"/><worldbody><bo
           '</body></worldbody><actuator><damper joint="j" kv="1" ctrlrange="0 1"/></actuator></mujoco>')
 
 
+F11_XML = ('<mujoco><option density="86"/><worldbody><body><joint type="hinge" axis="0 0 1"/><joint type="hinge" axis="0 1 0"/>'
+           '<geom type="capsule" size="0.03 0.03" pos="0 0.01 -0.01" fluidshape="ellipsoid"/></body></worldbody></mujoco>')
+
+
 def probes(ck, lib):
   """Deterministic probes for the reported derivative deviations (classes excluded from the generated stream)."""
   h = 1e-6
+  # F11: ellipsoid fluid model in the mjMINVAL-clamped regime (3 cm capsule moving at 4.8 cm/s, not along a principal axis)
+  m = lib.model_from_xml(F11_XML)
+  d = lib.make_data(m)
+  d.qpos[:] = [1.0, 0.7]
+  d.qvel[:] = [4.6, -1.2]
+  lib.mj_forward(m, d)
+
+  def fpass(vel):
+    dd = lib.copy_data(m, d)
+    dd.qvel[:] = vel
+    lib.mj_fwdVelocity(m, dd)
+    return np.array(dd.qfrc_passive)
+  v0_ = np.array(d.qvel)
+  fd1, fd2 = np.zeros((2, 2)), np.zeros((2, 2))
+  for i in range(2):
+    e = np.zeros(2)
+    e[i] = 1e-5
+    fd1[:, i] = (fpass(v0_ + e) - fpass(v0_ - e)) / 2e-5
+    fd2[:, i] = (fpass(v0_ + 2 * e) - fpass(v0_ - 2 * e)) / 4e-5
+  lib.mjd_smooth_vel(m, d, 0)
+  Dq = np.array(d.qDeriv).reshape(2, 2)
+  dev = float(np.abs(Dq - fd1).max())
+  bound = 10 * float(np.abs(fd2 - fd1).max()) + 3000 * EPS / 1e-5 * float(np.abs(fpass(v0_)).max())   # same error model as the stream
+  if dev > bound:
+    ck.violation('ellipsoid fluid model, capsule 0.03/0.03 at local speed 0.048 m/s: qDeriv %s vs central differences of qfrc_passive %s '
+                 '(max |diff| %.3g = %.2g relative, FD error bound %.2g): force and derivative code clamp different sub-expressions with '
+                 'mjMINVAL' % (Dq.tolist(), fd1.tolist(), dev, dev / np.abs(fd1).max(), bound), dict(xml=F11_XML, qpos=[1.0, 0.7], qvel=[4.6, -1.2]),
+                 bucket='probe-ellipsoid-minval', fingerprint='C25:ellipsoid-fluid-minval-clamp')
+  ck.label('probe:F11')
 
   def step_state(m, d, dv=None, du=None):
     dd = lib.copy_data(m, d)
